@@ -336,6 +336,7 @@ def ecallTerm (g : Cfg) : Cfg := (List.range g.nodes.size).foldl ecallStep g
   deterministic orders (ascending or descending push), so that both exits of a two-return
   function can be produced. -/
 
+/-- the rewritten return keeps its own raw token (its location), whatever exit it now jumps to -/
 def returnJump (found : CNode) (exitTok : RawTok) : Node :=
   let info : FTok := ⟨.symbol, "return", found.node.tok.text, found.node.tok.range, found.node.tok.file⟩
   .jumpLink ⟨"Jal", info⟩ ⟨0, info⟩ ⟨"__return__", info⟩ exitTok
@@ -351,7 +352,7 @@ structure MarkSt where
 /-- an additional return `i` of a function whose exit is `r`: `i` becomes a jump to `r`
     (found_ret.nexts := {prev_ret}; prev_ret.prevs += found_ret; node := jump) -/
 def rewireReturn (g : Cfg) (i r : Nat) : Cfg :=
-  (g.modify i fun m => { m with nexts := [r], node := returnJump m (g.get r).node.tok }).modify r
+  (g.modify i fun m => { m with nexts := [r], node := returnJump m m.node.tok }).modify r
     fun m => { m with prevs := insNat i m.prevs }
 
 def markLoop (desc : Bool) (entry : Nat) : Nat → MarkSt → MarkSt
